@@ -166,13 +166,14 @@ def _rig():
 EXN_CODE = {'ValueError': 1, 'error': 2, 'OverflowError': 3, 'TypeError': 4}
 
 
-def call_impl(cmd, ver, xm, pyargs, by_keyword=False, omit_defaults=False):
+def call_impl(cmd, ver, xm, pyargs, by_keyword=False, omit_defaults=False, set_version=True):
     """Call the real method.  pyargs: list of Python values, one per API parameter.
     -> ('sent', header, port, chan, bytes) | ('raise', class name) | ('none',) | ('multi', n)"""
     cf, link, lopo = _rig()
     objname, meth, params = CMDS[cmd]
     obj = lopo if objname == 'lopo' else getattr(cf, objname)
-    cf.platform._protocolVersion = ver
+    if set_version:           # single-call use (replay of old corpus entries); sessions drive the version themselves
+        cf.platform._protocolVersion = ver
     cf.commander.set_client_xmode(xm)
     del link.sent[:]
     args = [(bytes(a) if p[1] == 'raw' else list(a)) if isinstance(a, list) else a for p, a in zip(params, pyargs)]
@@ -206,6 +207,168 @@ def _same(a, b):
     if isinstance(a, float):
         return f64_bits(a) == f64_bits(b)          # -0.0 is not the default 0.0
     return a == b
+
+
+# ---------------------------------------------------------------- session histories on ONE set of objects
+# A history is a list of steps executed on the same Crazyflie / Commander / HighLevelCommander / Localization /
+# PlatformService objects, through the library's own entry points:
+#   connect     cf.platform.fetch_platform_informations(cb): the version becomes -1 until the firmware answers
+#   answer v    the firmware's protocol-version answer is delivered to PlatformService._platform_callback
+#   disconnect  cf.disconnected callbacks fire (what close_link / a lost link does)
+#   call        one command method; it must be encoded for the version in force at that moment
+def rig_connect():
+    cf, link, _ = _rig()
+    cf.platform.fetch_platform_informations(lambda: None)
+    del link.sent[:]
+
+
+def rig_answer(ver):
+    from cflib.crtp.crtpstack import CRTPPacket, CRTPPort
+    cf, link, _ = _rig()
+    pk = CRTPPacket()
+    pk.set_header(CRTPPort.PLATFORM, 1)          # VERSION_COMMAND channel
+    pk.data = (0, ver)                           # VERSION_GET_PROTOCOL, version
+    cf.platform._platform_callback(pk)
+    del link.sent[:]
+
+
+def rig_disconnect():
+    cf, link, _ = _rig()
+    cf.disconnected.call('fake://c08')
+    del link.sent[:]
+
+
+def version_in_force():
+    return _rig()[0].platform.get_protocol_version()
+
+
+def build_sessions(cases, rng, keep_ver=False):
+    """Group calls into sessions.  keep_ver: consecutive calls with the same version form a session (hand-picked
+    cases); otherwise a session of 2..9 calls gets the version of its first call.  In about half of the sessions
+    1..3 calls are made BEFORE the version answer arrives (version -1 in force)."""
+    sessions = []
+    i = 0
+    while i < len(cases):
+        n = rng.randint(2, 9)
+        v = cases[i]['ver']
+        j = i + 1
+        while j < len(cases) and j - i < n and (not keep_ver or cases[j]['ver'] == v):
+            j += 1
+        chunk = cases[i:j]
+        i = j
+        pre = 0 if (v == -1 or keep_ver or rng.random() < 0.5) else rng.randint(1, min(3, len(chunk)))
+        steps = [{'op': 'connect'}]
+        for k, c in enumerate(chunk):
+            if k == pre and v != -1:
+                steps.append({'op': 'answer', 'ver': v})
+            c['ver'] = -1 if k < pre else v
+            steps.append({'op': 'call', 'case': c})
+        if pre >= len(chunk) and v != -1:
+            steps.append({'op': 'answer', 'ver': v})
+        steps.append({'op': 'disconnect'})
+        sessions.append(steps)
+    return sessions
+
+
+def version_race_sessions():
+    """hand-written histories around the version negotiation: setpoints before the answer, after it, and on a
+    reconnect to a firmware of another generation"""
+    def call(cmd, args, xm=False):
+        return {'op': 'call', 'case': {'cmd': cmd, 'ver': None, 'xm': xm, 'args': list(args)}}
+    out = []
+    for first, second in ((9, 8), (8, 9), (10, 7), (7, 10)):
+        for early in ('CHover', 'CZDistance', 'CVelocityWorld', 'CHlGoTo'):
+            a4 = [1.0, 2.0, 3.0, 4.0]
+            g = [1.0, 2.0, 3.0, 0.5, 2.0, True, True, 3]
+            steps = [{'op': 'connect'}, call(early, g if early == 'CHlGoTo' else a4), {'op': 'answer', 'ver': first}]
+            steps += [call('CHover', a4), call('CZDistance', a4), call('CVelocityWorld', a4), call('CHlGoTo', g),
+                      call('CHlSpiral', [1.0, 0.5, 1.5, 0.25, 3.0, True, False, 0]), {'op': 'disconnect'},
+                      {'op': 'connect'}, {'op': 'answer', 'ver': second},
+                      call('CHover', a4), call('CZDistance', a4), call('CVelocityWorld', a4), call('CHlGoTo', g),
+                      {'op': 'disconnect'}]
+            out.append(steps)
+    return out
+
+
+def run_sessions(sessions):
+    """execute every history; each call step gets case['ver'] = version in force and case['out'] = outcome"""
+    n = 0
+    for steps in sessions:
+        for st in steps:
+            if st['op'] == 'connect':
+                rig_connect()
+            elif st['op'] == 'answer':
+                rig_answer(st['ver'])
+            elif st['op'] == 'disconnect':
+                rig_disconnect()
+            else:
+                c = st['case']
+                c['ver'] = version_in_force()
+                o = call_impl(c['cmd'], c['ver'], c['xm'], c['args'], by_keyword=c.get('kw', False),
+                              omit_defaults=c.get('omit', False), set_version=False)
+                c['out'] = canon_nans(o, c['ver']) if has_nan_risk(c) else o
+                n += 1
+    return n
+
+
+def history_json(steps, upto_case):
+    """the history up to and including the call of upto_case, JSON-safe"""
+    out = []
+    for st in steps:
+        if st['op'] == 'call':
+            c = st['case']
+            out.append({'op': 'call', 'cmd': c['cmd'], 'xmode': c['xm'], 'args': _enc_args(c['args']),
+                        'by_keyword': c.get('kw', False), 'omit_defaults': c.get('omit', False)})
+            if c is upto_case:
+                break
+        else:
+            out.append(dict(st))
+    return out
+
+
+def shrink_history(hist):
+    """drop earlier calls of the failing history that are not needed for the failure (greedy)"""
+    def fails(h):
+        f = replay_history(h)
+        return f is not None
+    if not fails(hist):
+        return hist
+    i = 0
+    while i < len(hist) - 1:
+        if hist[i]['op'] == 'call':
+            cand = hist[:i] + hist[i + 1:]
+            if fails(cand):
+                hist = cand
+                continue
+        i += 1
+    return hist
+
+
+def replay_history(hist):
+    """run a JSON history on the rig (after a disconnect, so that nothing of an earlier history is left);
+    judge its last call"""
+    rig_disconnect()
+    last = None
+    for st in hist:
+        if st['op'] == 'connect':
+            rig_connect()
+        elif st['op'] == 'answer':
+            rig_answer(st['ver'])
+        elif st['op'] == 'disconnect':
+            rig_disconnect()
+        else:
+            args = _dec_args(st['args'])
+            ver = version_in_force()
+            o = call_impl(st['cmd'], ver, st['xmode'], args, by_keyword=st.get('by_keyword', False),
+                          omit_defaults=st.get('omit_defaults', False), set_version=False)
+            last = (st['cmd'], ver, st['xmode'], args, o)
+    rig_disconnect()
+    if last is None:
+        return None
+    f = judge(*last)
+    if f:
+        f['version_in_force'] = last[1]
+    return f
 
 
 @contextlib.contextmanager
@@ -287,9 +450,9 @@ HEADER = ('From CF Require Import Common.Bytes Common.Struct C08.PyVal C08.Model
 # firmware negates, first protocol version knowing the type)
 REF_GENERIC = {
     0: ('stop', '', None, None),
-    1: ('velocity_world', 'ffff', 3, None),
-    2: ('zdistance', 'ffff', 2, None),
-    5: ('hover', 'ffff', 2, None),
+    1: ('velocity_world_legacy', 'ffff', 3, None),     # legacy: the decoder negates the yaw rate
+    2: ('zdistance_legacy', 'ffff', 2, None),
+    5: ('hover_legacy', 'ffff', 2, None),
     6: ('full_state', 'hhhhhhhhhIhhh', None, None),
     7: ('position', 'ffff', None, None),
     8: ('velocity_world', 'ffff', None, 9),
@@ -458,6 +621,8 @@ def expectation(cmd, ver, xm, args):
         return ('packet', 7, 0, 'stop', [])
     if cmd in ('CVelocityWorld', 'CZDistance', 'CHover', 'CPosition'):
         name = {'CVelocityWorld': 'velocity_world', 'CZDistance': 'zdistance', 'CHover': 'hover', 'CPosition': 'position'}[cmd]
+        if cmd != 'CPosition' and ver <= 8:
+            name += '_legacy'        # protocol versions up to 8 use the legacy types, 9 and later the new ones
         return ('packet', 7, 0, name, list(args))
     if cmd == 'CFullState':
         from cflib.utils.encoding import compress_quaternion
@@ -576,7 +741,10 @@ def judge(cmd, ver, xm, args, o):
         return {'class': 'firmware_rejects_packet:%s' % cmd, 'expected': exp[3],
                 'observed': 'port %d channel %d payload %s not accepted by protocol version %d' % (port, chan, data.hex(), ver)}
     if dec[0] != exp[3]:
-        return {'class': 'decodes_as_other_command:%s' % cmd, 'expected': exp[3], 'observed': dec[0]}
+        cls = 'decodes_as_other_command:%s' % cmd
+        if dec[0] + '_legacy' == exp[3] or dec[0] == exp[3] + '_legacy':
+            cls = 'wrong_packet_type_for_protocol_version:%s' % cmd
+        return {'class': cls, 'expected': '%s under protocol version %d' % (exp[3], ver), 'observed': dec[0]}
     if len(dec[1]) != len(exp[4]):
         return {'class': 'field_count:%s' % cmd, 'expected': len(exp[4]), 'observed': len(dec[1])}
     for i, (e, g) in enumerate(zip(exp[4], dec[1])):
@@ -904,15 +1072,28 @@ def tie(ctx):
             seen.add(k)
             uniq.append(c)
     cases = uniq
+    n_focus = len(corpus_cases()) + len(focus_cases(ctx.rng.__class__(0)))
+    for i, c in enumerate(cases):
+        c['kw'], c['omit'] = (i % 7 == 3), (i % 5 == 1)
+    # session histories: the same objects throughout, the version changes only through connect / answer / disconnect
+    sessions = version_race_sessions() + build_sessions(cases[:n_focus], ctx.rng, keep_ver=True) \
+        + build_sessions(cases[n_focus:], ctx.rng)
+    run_sessions(sessions)
+    cases, owner = [], {}
+    for steps in sessions:
+        for st in steps:
+            if st['op'] == 'call':
+                owner[id(st['case'])] = steps
+                cases.append(st['case'])
     terms, exp, outs = [], [], []
     dist = {'sent': 0, 'raise': 0, 'none': 0, 'other': 0}
     per_cmd = {}
     exn_kinds = {}
-    for i, c in enumerate(cases):
-        o = call_impl(c['cmd'], c['ver'], c['xm'], c['args'], by_keyword=(i % 7 == 3), omit_defaults=(i % 5 == 1))
-        if has_nan_risk(c):
-            o = canon_nans(o, c['ver'])
+    pre_answer = 0
+    for c in cases:
+        o = c['out']
         outs.append(o)
+        pre_answer += c['ver'] == -1
         dist[o[0] if o[0] in dist else 'other'] += 1
         per_cmd[c['cmd']] = per_cmd.get(c['cmd'], 0) + 1
         if o[0] == 'raise':
@@ -924,7 +1105,7 @@ def tie(ctx):
         nd += 1
         if len(dis) < 12:
             dis.append({'what': 'model and implementation differ on %s' % cases[bi]['cmd'], 'case': case_json(cases[bi]),
-                        'model': mv, 'impl': exp[bi]})
+                        'history': history_json(owner[id(cases[bi])], cases[bi]), 'model': mv, 'impl': exp[bi]})
     # ---- header byte: ports 0..63 x channels 0..15 through set_header and through the property setters
     from cflib.crtp.crtpstack import CRTPPacket
     hdr_terms, hdr_exp = [], []
@@ -951,13 +1132,17 @@ def tie(ctx):
     return {
         'evaluations': len(cases) + 64 * 16,
         'distinct_nontrivial': nontriv,
-        'rule': 'distinct (method, protocol version, x-mode, exact argument values) calls on the real classes with a recording '
+        'rule': 'session histories on ONE Crazyflie/Commander/HighLevelCommander/Localization/PlatformService (connect -> version -1, '
+                'calls, firmware version answer, calls, disconnect, reconnect to another version): every call must equal the model '
+                'run with the version in force at that moment; '
+                'distinct (method, protocol version, x-mode, exact argument values) calls on the real classes with a recording '
                 'link, outcome (port, channel, payload bytes | exception class | nothing) equal to the Coq model run on the '
                 'translated layout; non-trivial: the method has arguments and the call sent a packet or raised; every 7th call '
                 'by keyword, every 5th with trailing defaults omitted; header byte for 64 x 16 port/channel values exhaustively',
         'samples': samples[:6],
         'distribution': {'outcomes': dist, 'per_command_min': min(per_cmd.values()), 'per_command_max': max(per_cmd.values()),
-                         'exception_classes': exn_kinds, 'commands': len(per_cmd), 'header_pairs': 1024},
+                         'exception_classes': exn_kinds, 'commands': len(per_cmd), 'header_pairs': 1024,
+                         'sessions': len(sessions), 'calls_before_version_answer': pre_answer},
         'exhaustive': False,
         'disagreements': dis,
     }
@@ -974,16 +1159,28 @@ def oracle(ctx, deep=False):
     for cmd in ORDER:
         for _ in range(per if CMDS[cmd][2] else 2):
             cases.append(gen_case(rng, cmd, typed=True))
+    flat = []
+    n_focus = len(corpus_cases()) + len(focus_cases(random.Random(0)))
     for i, c in enumerate(cases):
         for mode in ((False, False),) if i % 3 else ((False, False), (True, False), (False, True)):
-            o = call_impl(c['cmd'], c['ver'], c['xm'], c['args'], by_keyword=mode[0], omit_defaults=mode[1])
-            n += 1
-            f = judge(c['cmd'], c['ver'], c['xm'], c['args'], o)
+            d = dict(c, kw=mode[0], omit=mode[1])
+            flat.append((i < n_focus, d))
+    foc = [d for f, d in flat if f]
+    rnd = [d for f, d in flat if not f]
+    sessions = version_race_sessions() + build_sessions(foc, rng, keep_ver=True) + build_sessions(rnd, rng)
+    n += run_sessions(sessions)
+    for steps in sessions:
+        for st in steps:
+            if st['op'] != 'call':
+                continue
+            c = st['case']
+            f = judge(c['cmd'], c['ver'], c['xm'], c['args'], c['out'])
             if f:
                 f['case'] = case_json(c)
-                f['case']['by_keyword'], f['case']['omit_defaults'] = mode
+                f['case']['by_keyword'], f['case']['omit_defaults'] = c['kw'] if 'kw' in c else False, c.get('omit', False)
+                f['_steps'] = steps
+                f['_case'] = c
                 fails.append(f)
-                break
     # ---- header clause: all 16 x 4
     from cflib.crtp.crtpstack import CRTPPacket
     for port in range(16):
@@ -1009,8 +1206,29 @@ def oracle(ctx, deep=False):
         k = f['class']
         if k not in best or rank(f) < rank(best[k]):
             best[k] = f
+    for f in best.values():
+        if '_steps' in f:
+            # the concrete history: does the call fail on its own (fresh connection, version answered)?  If not, the
+            # failure needs the earlier steps: keep the (shrunk) history
+            steps, c = f.pop('_steps'), f.pop('_case')
+            hist = history_json(steps, c)
+            alone = [{'op': 'connect'}] + ([{'op': 'answer', 'ver': c['ver']}] if c['ver'] != -1 else []) + [hist[-1]]
+            if replay_history(alone) is not None:
+                hist = alone
+            else:
+                hist = shrink_history(hist)
+                f['class'] = 'depends_on_session_history:' + f['class']
+                f['detail'] = (f.get('detail', '') + ' | the same call on a fresh connection with protocol version %d is encoded '
+                               'correctly: the encoding depends on what happened earlier in the session' % c['ver']).strip(' |')
+            f['case']['history'] = hist
+            f['case']['version_in_force'] = c['ver']
+    for f in fails:
+        f.pop('_steps', None)
+        f.pop('_case', None)
     return {'evaluations': n, 'failures': list(best.values()),
-            'rule': 'reference decoder written from the firmware structs applied to packets of the real methods; decoded fields vs '
+            'rule': 'session histories (version -1 before the firmware answer, then v; reconnects to other versions; calls before and '
+                    'after each change) on one set of objects: every packet must decode under the version in force when sent; '
+                    'reference decoder written from the firmware structs applied to packets of the real methods; decoded fields vs '
                     'the caller\'s arguments (float32 / truncated thousandths / exact ints), raises for unrepresentable values, '
                     'single packet <= 30 bytes, header for all 16 x 4'}
 
@@ -1020,6 +1238,11 @@ def replay(payload, ctx):
     if c.get('cmd') == 'header':
         fs = [f for f in oracle(ctx)['failures'] if f['class'] == 'header_not_lossless']
         return fs[0] if fs else None
+    if c.get('history'):
+        f = replay_history(c['history'])
+        if f:
+            f['case'] = c
+        return f
     case = case_from_json(c)
     o = call_impl(case['cmd'], case['ver'], case['xm'], case['args'], by_keyword=c.get('by_keyword', False),
                   omit_defaults=c.get('omit_defaults', False))
